@@ -299,6 +299,44 @@ def arg_rule(ctx: Ctx, variants, rule="ARG"):
                        "(reductions change the values and the shape of array arguments; untyped array coercion turns Python ints into fixed-width integers whose powers overflow)")
 
 
+def stateless_rule(ctx: Ctx, rule="STATELESS"):
+    """The conversion functions and their factories are pure: what a factory returns depends on its arguments only.  A
+    module-level container consulted by them (a cache of compiled functions, …) makes the returned function depend on which
+    factories were called before — one wrong key and a variant silently answers with another conversion."""
+    m = ctx.model
+    mod = m.modules.get(SPH)
+    if mod is None:
+        return
+    state = {}
+    for st in mod.tree.body:
+        tgt = val = None
+        if isinstance(st, ast.Assign) and len(st.targets) == 1 and isinstance(st.targets[0], ast.Name):
+            tgt, val = st.targets[0].id, st.value
+        elif isinstance(st, ast.AnnAssign) and isinstance(st.target, ast.Name) and st.value is not None:
+            tgt, val = st.target.id, st.value
+        if tgt is None:
+            continue
+        if isinstance(val, (ast.Dict, ast.List, ast.Set, ast.DictComp, ast.ListComp, ast.SetComp)) or \
+                (isinstance(val, ast.Call) and (dotted(val.func) or "").split(".")[-1] in ("dict", "list", "set", "defaultdict", "OrderedDict", "WeakValueDictionary")):
+            state[tgt] = st
+    n = 0
+    for q, lst in m.functions.items():
+        if not q.startswith(SPH + "."):
+            continue
+        for fi in lst:
+            if not ROLE_RE.match(fi.name) and not (fi.parent is not None and ROLE_RE.match(fi.parent.name)):
+                continue
+            n += 1
+            local = {x.id for x in ast.walk(fi.node) if isinstance(x, ast.Name) and isinstance(x.ctx, ast.Store)} | set(fi.all_params)
+            used = [x for x in ast.walk(fi.node) if isinstance(x, ast.Name) and x.id in state and x.id not in local]
+            deco_cache = [d for d in fi.decorators if (d or "").split(".")[-1] in ("lru_cache", "cache", "cached")]
+            ok = not used
+            ctx.decide(ok, rule, fi.qualname, (fi, used[0]) if used else fi, "depends on its arguments only",
+                       f"reads/writes the module-level container `{used[0].id if used else ''}`: the conversion a factory hands out depends on earlier calls (a cache keyed wrongly returns another "
+                       "variant's function, e.g. the volume→radius converter in place of radius→volume)")
+    return n
+
+
 def identities(ctx: Ctx, table, rule="FORMULA-ID"):
     x = Expr.atom(F.X)
     fn = ctx.model.func(f"{SPH}.radius_from_volume")
@@ -399,20 +437,30 @@ def wiring(ctx: Ctx, rule="WIRING"):
     except Exception as exc:
         ok, detail = False, str(exc)
     ctx.decide(ok, rule, f"{SD}.interface_curvature", fi, "1/self.radius", f"expected 1/self.radius, found {detail}")
-    # bbox
-    fi = m.func(f"{SD}.bbox")
-    v = single_return_call(fi)
-    ok, detail = False, U(v) if v is not None else "no return"
-    if isinstance(v, ast.Call) and (dotted(v.func) or "").endswith("from_points") and len(v.args) == 2:
-        from ..algebra import to_expr
+    # bbox: the base class' formula, and no subclass replaces it by another one
+    sd_ci = m.cls("SphericalDroplet")
+    for ci_ in [sd_ci] + m.subclasses(sd_ci):
+        lst_ = [f_ for f_ in ci_.methods.get("bbox", []) if f_.kind == "property"]
+        if not lst_:
+            continue
+        fi = lst_[0]
+        rets_ = [s_ for s_ in ast.walk(fi.node) if isinstance(s_, ast.Return) and s_.value is not None]
+        v = single_return_call(fi) if len(rets_) == 1 else None
+        ok, detail = False, U(v) if v is not None else f"{len(rets_)} returns"
+        if isinstance(v, ast.Call) and (dotted(v.func) or "").endswith("from_points") and len(v.args) == 2:
+            from ..algebra import to_expr
 
-        try:
-            lo, hi = to_expr(v.args[0]), to_expr(v.args[1])
-            p, r = Expr.atom("self.position"), Expr.atom("self.radius")
-            ok = {lo, hi} == {p - r, p + r} and lo != hi
-        except Exception:
-            ok = False
-    ctx.decide(ok, rule, f"{SD}.bbox", fi, "Cuboid.from_points(position - radius, position + radius)", f"expected corners position ∓ radius, found {detail}")
+            try:
+                lo, hi = to_expr(v.args[0]), to_expr(v.args[1])
+                p, r = Expr.atom("self.position"), Expr.atom("self.radius")
+                ok = {lo, hi} == {p - r, p + r} and lo != hi
+                # a name rebound on some path (extent = radius; extent += width) is not the radius
+                muts_ = [s_ for s_ in ast.walk(fi.node) if isinstance(s_, ast.AugAssign)]
+                ok = ok and not muts_
+            except Exception:
+                ok = False
+        ctx.decide(ok, rule, f"{ci_.qualname}.bbox", fi, "Cuboid.from_points(position - radius, position + radius)",
+                   f"expected corners position ∓ radius, found {detail}: the bounding box of a droplet no longer follows from its radius and position alone")
 
 
 def check(ctx: Ctx):
@@ -426,10 +474,12 @@ def check(ctx: Ctx):
     )
     table = formulas(ctx)
     identities(ctx, table)
+    stateless_rule(ctx)
     wiring(ctx)
     ctx.expect("FORMULA", 24)
     ctx.expect("ZERO", 8)
     ctx.expect("ARG", 8)
+    ctx.expect("STATELESS", 15)
     ctx.expect("FORMULA-ID", 10)
     ctx.expect("WIRING", 6)
     ctx.exhaustive = True
